@@ -143,7 +143,9 @@ mod native {
     }
     fn report(check: &str, sidx: &[usize], codes: &[u8], msg: &str) {
         let path: Vec<&str> = sidx.iter().map(|i| SEGS[*i]).collect();
-        let route: Vec<PathSegment> = codes.iter().map(|c| route_seg(*c)).collect();
+        // localize_text: the last code is the spelling of the path text (0 plain, 1 trailing slash, 2 doubled slashes)
+        let rc = if check == "localize_text" { &codes[..codes.len() - 1] } else { codes };
+        let route: Vec<PathSegment> = rc.iter().map(|c| route_seg(*c)).collect();
         println!("FAIL check={} segs={} codes={} path=/{} route={:?} msg={}", check,
             sidx.iter().map(|x| x.to_string()).collect::<Vec<_>>().join(","),
             codes.iter().map(|x| x.to_string()).collect::<Vec<_>>().join(","),
